@@ -1980,9 +1980,15 @@ class NuclearNorm(Functional):
             space=space, linear=False, grad_lipschitz=np.nan)
 
         self.outernorm = LpNorm(self.domain[0, 0], exponent=outer_exp)
-        self.pwisenorm = PointwiseNorm(self.domain[0],
-                                       exponent=singular_vector_exp)
         self.pshape = (len(self.domain), len(self.domain[0]))
+        # The vector of singular values of an (n x m) matrix has min(n, m)
+        # entries, which is different from m (= len(domain[0])) if n < m.
+        if self.pshape[0] >= self.pshape[1]:
+            svd_space = self.domain[0]
+        else:
+            svd_space = ProductSpace(self.domain[0, 0], self.pshape[0])
+        self.pwisenorm = PointwiseNorm(svd_space,
+                                       exponent=singular_vector_exp)
 
     def _asarray(self, vec):
         """Convert ``x`` to an array.
